@@ -13,6 +13,7 @@ import (
 	"github.com/ethereum/go-ethereum/params"
 	"github.com/holiman/uint256"
 	ctrlertypes "github.com/rigochain/rigo-go/ctrlers/types"
+	"github.com/rigochain/rigo-go/libs/verifhook"
 	"github.com/rigochain/rigo-go/types"
 	"github.com/rigochain/rigo-go/types/bytes"
 	"github.com/rigochain/rigo-go/types/xerrors"
@@ -331,6 +332,7 @@ func (ctrler *EVMCtrler) Commit() ([]byte, int64, xerrors.XError) {
 	if err := ctrler.stateDBWrapper.Database().TrieDB().Commit(rootHash, true, nil); err != nil {
 		panic(err)
 	}
+	verifhook.DurableWritten("evm:trie")
 	ctrler.lastBlockHeight++
 	ctrler.lastRootHash = rootHash[:]
 
@@ -339,6 +341,7 @@ func (ctrler *EVMCtrler) Commit() ([]byte, int64, xerrors.XError) {
 	batch.Set(blockKey(ctrler.lastBlockHeight), ctrler.lastRootHash)
 	batch.WriteSync()
 	batch.Close()
+	verifhook.DurableWritten("evm:root")
 
 	stdb, err := NewStateDBWrapper(ctrler.ethDB, ctrler.lastRootHash, ctrler.acctHandler, ctrler.logger)
 	if err != nil {
